@@ -254,6 +254,15 @@ class Partial(Node):
         self.kwargs = kwargs
 
 
+class Super(Node):
+    kind = "super"
+
+    def __init__(self, key, after: ClassInfo, self_av: AV) -> None:
+        super().__init__(key)
+        self.after = after
+        self.self_av = self_av
+
+
 class Opaque(Node):
     kind = "opaque"
 
@@ -631,6 +640,9 @@ class Interp:
         if isinstance(s, (ast.With, ast.AsyncWith)):
             for it in s.items:
                 v = self.ev(it.context_expr, env, fr)
+                entered = [self.call_function(self.repo.lookup_method(n.cls, "__enter__"), [ref(n)], {}, fr, it.context_expr, bound=True) for n in v.refs if isinstance(n, Rec) and self.repo.lookup_method(n.cls, "__enter__") is not None]
+                if entered:
+                    v = join(*entered, AV(refs=frozenset(n for n in v.refs if not (isinstance(n, Rec) and self.repo.lookup_method(n.cls, "__enter__") is not None))))
                 if it.optional_vars is not None:
                     self.assign(it.optional_vars, v, env, fr, s, None)
             return self.block(s.body, env, fr)
@@ -1178,7 +1190,7 @@ class Interp:
         if av.top:
             t = f = True
         for n in av.refs:
-            if isinstance(n, (Seq, Dict, View)):
+            if isinstance(n, (Seq, Dict, View)) or (isinstance(n, Rec) and ("__bool__" in n.cls.methods or "__len__" in n.cls.methods)):
                 t = f = True
             else:
                 t = True
@@ -1490,6 +1502,17 @@ class Interp:
 
     def binop(self, op: ast.operator, a: AV, b: AV, fr: Frame, e: ast.AST) -> AV:
         outs: list[AV] = []
+        if isinstance(op, ast.Mod) and a.concrete and all(isinstance(x, str) for x in a.values()) and b.refs and not b.consts and not b.top:
+            # "...%(name)s" % {...} / "...%s" % (a, b) with known operands
+            b = self.as_const(b)
+            if len(b.refs) == 1 and isinstance(next(iter(b.refs)), Dict):
+                d = next(iter(b.refs))
+                if d.fields and all(v.concrete and len(v.consts) == 1 for v in d.fields.values()):
+                    mapping = {k: v.values()[0] for k, v in d.fields.items()}
+                    try:
+                        return consts(x % mapping for x in a.values())
+                    except OP_ERRORS as exc:
+                        self.op_failed(exc)
         if a.consts and b.consts and len(a.consts) * len(b.consts) <= 64 and not (isinstance(op, ast.Mod) and any(isinstance(x, str) for x in a.values()) and (b.refs or b.top)):
             vals = []
             for x in a.values():
@@ -1680,6 +1703,10 @@ class Interp:
             elif isinstance(n, Match):
                 outs.append(self.group_value(n, None))
                 unique = False
+            elif isinstance(n, Rec) and fr is not None and self.repo.lookup_method(n.cls, "__iter__") is not None:
+                it = self.call_function(self.repo.lookup_method(n.cls, "__iter__"), [ref(n)], {}, fr, expr if expr is not None else n.cls.node, bound=True)
+                outs.append(self.iterate(it, None, fr, expr))
+                unique = False
             else:
                 outs.append(self.unknown_value(f"iteration over {n.kind}", ref(n)))
                 unique = False
@@ -1790,6 +1817,8 @@ class Interp:
             elif isinstance(n, View) and n.kind == "pair":
                 ci = k.single()
                 outs.append(n.d.k if ci is not None and ci.v == 0 else via(n.d.v) if ci is not None and ci.v == 1 else join(n.d.k, via(n.d.v)))
+            elif isinstance(n, Rec) and self.repo.lookup_method(n.cls, "__getitem__") is not None:
+                outs.append(self.call_function(self.repo.lookup_method(n.cls, "__getitem__"), [ref(n), k], {}, fr, e, bound=True))
             elif isinstance(n, (Cls, Lib)):
                 outs.append(ref(n))  # generic alias: list[str], re.Pattern[str]
             else:
@@ -1855,6 +1884,16 @@ class Interp:
                 om = self.repo.modules.get(n.what[7:])
                 v = self.module_value(om, e.attr, fr) if om is not None else None
                 outs.append(v if v is not None else self.unknown_value(f"{n.what}.{e.attr}"))
+            elif isinstance(n, Super):
+                mro = [c for sn in n.self_av.refs if isinstance(sn, (Rec, Cls)) for c in self.repo.mro(sn.cls if isinstance(sn, Rec) else sn.ci)]
+                after = mro[mro.index(n.after) + 1 :] if n.after in mro else self.repo.mro(n.after)[1:]
+                target = next((c.methods[e.attr] for c in after if e.attr in c.methods), None)
+                if target is not None:
+                    outs.append(ref(Func(("super", target.fq, id(n)), target, None if target.is_staticmethod else n.self_av)))
+                elif e.attr in ("__init__", "__post_init__", "__init_subclass__", "__setattr__"):
+                    outs.append(self.lib("builtins.object." + e.attr))
+                else:
+                    outs.append(self.unknown_value(f"super().{e.attr}"))
             elif isinstance(n, Pattern):
                 outs.append(const(n.text) if e.attr == "pattern" else const(n.flags) if e.attr == "flags" else self.lib("re.Pattern." + e.attr, ref(n)))
             else:
@@ -1863,7 +1902,9 @@ class Interp:
             sc = AV(frozenset(c for c in base.consts if c.v is not None), base.top, base.prov)
             if base.maybe_none():
                 self.raise_("builtins.AttributeError", "may" if (not sc.bottom or base.refs) else "op")
-            if not sc.bottom:
+            if not sc.bottom and e.attr == "value" and sc.concrete:
+                outs.append(sc)  # member of an Enum class, approximated by its value
+            elif not sc.bottom:
                 outs.append(self.lib("scalar." + e.attr, sc))
             elif not base.refs:
                 raise _Dead()
@@ -1954,6 +1995,10 @@ class Interp:
                 outs.append(self.construct(n.ci, args, kwargs, fr, e, tag))
             elif isinstance(n, Lib):
                 outs.append(self.call_lib(n, args, kwargs, fr, e, tag, star or [False] * len(args), env))
+            elif isinstance(n, Rec) and self.repo.lookup_method(n.cls, "__call__") is not None:
+                outs.append(self.call_function(self.repo.lookup_method(n.cls, "__call__"), [ref(n), *args], kwargs, fr, e, bound=True, star=star))
+            elif isinstance(n, Super):
+                outs.append(self.unknown_value("call of super object"))
             elif isinstance(n, Partial):
                 outs.append(self.call_value(n.f, [*n.args, *args], {**n.kwargs, **kwargs}, fr, e, tag=("partial", n.key, tag), star=[False] * len(n.args) + list(star or [False] * len(args)), env=env))
             else:
@@ -2320,7 +2365,7 @@ class Interp:
             return self.unknown_value(f"method {name}", *args)
         # ---------------------------------------------------------------- builtins and friends
         if name.startswith("builtins."):
-            return self.builtin(name[9:], args, kwargs, fr, e, star)
+            return self.builtin(name[9:], args, kwargs, fr, e, star, env)
         if name in ("collections.defaultdict",):
             d = self.dict_(fr, e, "defaultdict")
             d.factory = a0 if args else None
@@ -2476,7 +2521,7 @@ class Interp:
                 outs.append(self.unknown_value(f"method {meth} of a dict", ref(d), *args))
         return join(*outs)
 
-    def builtin(self, name: str, args: list[AV], kwargs: dict, fr: Frame, e: ast.AST, star: list) -> AV:
+    def builtin(self, name: str, args: list[AV], kwargs: dict, fr: Frame, e: ast.AST, star: list, env: dict | None = None) -> AV:
         a0 = args[0] if args else BOT
         if name in ("set", "frozenset", "list", "tuple", "sorted", "reversed", "iter"):
             kind = {"sorted": "list", "reversed": "iter"}.get(name, name)
@@ -2574,6 +2619,12 @@ class Interp:
             return join(self.iterate(a0, None, fr, None), args[1] if len(args) > 1 else BOT)
         if name == "range":
             return TOPV if not all(a.concrete for a in args) else ref(self._range(fr, e, args))
+        if name == "super":
+            if fr.fi is not None and fr.cls is not None and env is not None and fr.fi.param_names and fr.fi.param_names[0] in env:
+                return ref(Super((fr.ctx, id(e)), fr.cls, env[fr.fi.param_names[0]]))
+            return self.unknown_value("super() outside a method")
+        if name.startswith("object."):
+            return NONE
         if name == "open":
             return ref(self.node(("file",), lambda: File(("file",))))
         if name in ("print", "id", "hash"):
